@@ -486,6 +486,8 @@ def check_property(pid, obligations, tier, jobs, only=None, keep_work=False, see
                 rep["native_replay"] = nat
                 digest = sha(init)
                 reproduced = any(x.get("reproduced") for x in nat)
+            if r.trace_vin is not None and "vin_init" not in rep:
+                rep["verifier_counterexample_input (not replayed natively: harness relies on CBMC-only stubs)"] = vin_to_c(r.trace_vin)
             rep["reproduced_on_real_code"] = reproduced
             if r.status == "unwind" and not reproduced:
                 undecided.append(r)
